@@ -180,7 +180,7 @@ PROPS = {
                         "reduce_layout (wiring-time tree for fixed TSL) is not yet under contract"],
     },
     "C05": {
-        "modules": ["contracts.c05_collections"],
+        "modules": ["contracts.c05_collections", "contracts.c05_window"],
         "level": "proof",
         "design_ref": "DESIGN.md section 8, C05",
         "trusted_base": [
@@ -188,9 +188,14 @@ PROPS = {
             "find_slot; remove_slot makes a live slot pending-erase; erase_pending frees all pending slots) -- assumed, not yet proved on key_slot_store.h",
             "sul::dynamic_bitset model (test/set/reset/resize/size)",
             "keys are opaque ids with equality (so the result is generic in the element type)",
+            "window ring buffer: value_slot/time_slot/time_at_physical/element_at/copy_construct_slot/copy_assign_*_slot/clear/"
+            "deallocate are one-line members used through their contracts (element_at's index test, slot = bytes + k*stride); "
+            "byte pointers are (buffer, slot) pairs, any other pointer arithmetic is a gap",
         ],
-        "assumptions": [],
-        "not_decided": ["TSD published/modified bits, TSL/TSB delta bits, tick-count windows (not yet under contract)",
+        "assumptions": ["element and time copy/move construction, assignment and destruction do not throw and copy the element identity "
+                        "(window kernels); operator new does not fail"],
+        "not_decided": ["TSD published/modified bits, TSL/TSB delta bits (not yet under contract)",
+                        "TimeTSWindowStorage::push / SizeTSWindowStorage::push as compositions of the proved core operations",
                         "nested TSD-of-TSD coherence", "stable_slot_store growth (slot identity)"],
     },
     "C19": {
